@@ -22,11 +22,27 @@ def build_harness():
     """cargo is incremental; any edit under /repo/src triggers a rebuild of the cfr crate."""
     if _built.get("harness"):
         return _built["harness"]
+    if os.environ.get("VERIF_HARNESS_EXE"):
+        # tools/coverage.py: a coverage-instrumented build of the same executor (measurement only, never evidence)
+        _built["harness"] = os.environ["VERIF_HARNESS_EXE"]
+        return _built["harness"]
     os.makedirs(CACHE, exist_ok=True)
-    shutil.copyfile(os.path.join(REPO, "Cargo.lock"), os.path.join(HDIR, "Cargo.lock"))
+    hdir = HDIR
+    if os.path.realpath(REPO) != "/repo":
+        # development only (VERIF_REPO: a snapshot of the repository for long background runs): the executor crate
+        # names its dependency by path, so build a copy of it that points at the other tree
+        hdir = os.path.join(CACHE, "harness-alt")
+        shutil.rmtree(hdir, ignore_errors=True)
+        shutil.copytree(HDIR, hdir, ignore=shutil.ignore_patterns("target", "Cargo.lock"))
+        toml = open(os.path.join(hdir, "Cargo.toml")).read().replace('path = "/repo"', 'path = "%s"' % REPO)
+        open(os.path.join(hdir, "Cargo.toml"), "w").write(toml)
+        cfg = os.path.join(hdir, ".cargo", "config.toml")
+        if os.path.exists(cfg):
+            open(cfg, "w").write(open(cfg).read().replace("/verif/.cache/target", TARGET))
+    shutil.copyfile(os.path.join(REPO, "Cargo.lock"), os.path.join(hdir, "Cargo.lock"))
     env = _env()
     env["RUSTFLAGS"] = "--cfg cfr_verif"
-    p = subprocess.run(["cargo", "build", "--release", "--offline", "--quiet"], cwd=HDIR, env=env,
+    p = subprocess.run(["cargo", "build", "--release", "--offline", "--quiet"], cwd=hdir, env=env,
                        capture_output=True, text=True, timeout=1800)
     if p.returncode != 0:
         raise BuildError("harness build failed (does /repo still compile with --cfg cfr_verif?)\n" + p.stderr[-6000:])
@@ -55,6 +71,52 @@ class BuildError(Exception):
     pass
 
 
+def _cpu_ticks(pid):
+    """user + system time of the process and its threads (clock ticks), or None if it is gone"""
+    try:
+        f = open("/proc/%d/stat" % pid).read()
+        rest = f[f.rindex(")") + 2:].split()
+        return int(rest[11]) + int(rest[12])
+    except Exception:
+        return None
+
+
+def _run_watched(cmd, timeout, idle=90):
+    """Run the executor; a process that makes no CPU progress at all for `idle` seconds is deadlocked (every worker
+    waiting for a lock) rather than busy: kill it and say so instead of waiting for the long timeout."""
+    import tempfile
+    import time
+    with tempfile.TemporaryFile("w+") as errf:
+        p = subprocess.Popen(cmd, stdout=subprocess.DEVNULL, stderr=errf, text=True)
+        t0 = time.time()
+        last_ticks, last_change = None, time.time()
+        status = None
+        while True:
+            try:
+                p.wait(timeout=2)
+                status = p.returncode
+                break
+            except subprocess.TimeoutExpired:
+                pass
+            now = time.time()
+            ticks = _cpu_ticks(p.pid)
+            if ticks != last_ticks:
+                last_ticks, last_change = ticks, now
+            if now - last_change > idle:
+                p.kill()
+                p.wait()
+                status = "hung (no CPU progress for %d s: deadlock)" % idle
+                break
+            if now - t0 > timeout:
+                p.kill()
+                p.wait()
+                status = "timeout"
+                break
+        errf.seek(0)
+        err = errf.read()[-2000:]
+    return status, err
+
+
 def run_cases(name, cases, timeout=1800, chunk=None, jobs=1):
     """Run cases through the executor; returns dict id -> result."""
     exe = build_harness()
@@ -70,12 +132,7 @@ def run_cases(name, cases, timeout=1800, chunk=None, jobs=1):
             json.dump(cs, f)
         if os.path.exists(outp):
             os.remove(outp)
-        try:
-            p = subprocess.run([exe, inp, outp], capture_output=True, text=True, timeout=timeout)
-            status = p.returncode
-            err = p.stderr[-2000:]
-        except subprocess.TimeoutExpired:
-            status, err = "timeout", ""
+        status, err = _run_watched([exe, inp, outp], timeout)
         res = {}
         if os.path.exists(outp):
             with open(outp) as f:
